@@ -1620,3 +1620,161 @@ func c03HandshakeOmitsKeyOnly(c *Ctx) {
 		c.Check(bad == "", "C03.handshake-omits-key-only", recv+".MarshalForHandshakes", c.P.Pos(fn.Pos()), "only the public key is omitted", "the handshake encoding alters a certificate field other than the public key ("+bad+"): the decoder, which takes only the key (and for v2 the curve) from the handshake, rebuilds a different certificate or refuses it")
 	}
 }
+
+// ---------------------------------------------------------------------------------------
+// C19 (seed C19b: Firewall.rulesVersion was widened to uint32 "to avoid the wrap" while each tracked flow kept a uint16 stamp
+// compared through uint16(f.rulesVersion)): the stamp of a flow and the version of the rule set must range over the same
+// values, otherwise equal stamps no longer mean "validated against these rules" and the wrap reset in reloadFirewall (which
+// fires when the firewall's version returns to 0) no longer coincides with the stamp aliasing.
+func init() {
+	p := registry["C19"]
+	orig, origCan := p.Run, p.Canaries
+	p.Run = func(c *Ctx) {
+		orig(c)
+		c.Rule("C19.version-width", "K7: the per-flow stamp conn.rulesVersion and Firewall.rulesVersion have the same type, and no comparison or copy between them goes through a narrowing conversion", 1)
+		fv, cv := c.Field("", "Firewall", "rulesVersion"), c.Field("", "conn", "rulesVersion")
+		if fv == nil || cv == nil {
+			return
+		}
+		c.Check(types.Identical(fv.Type(), cv.Type()), "C19.version-width", "rulesVersion types", c.P.Pos(fv.Pos()), fv.Type().String(), fmt.Sprintf("Firewall.rulesVersion is %s but the stamp kept in each tracked flow is %s: stamps alias every 2^%d reloads while the wrap reset follows the wider counter, so a flow idle across such a number of reloads is honoured without being revalidated", fv.Type(), cv.Type(), 8*int(c.P.sizeofBasic(cv.Type()))))
+	}
+	p.Canaries = func(c *Ctx) []Canary {
+		return append(origCan(c), Canary{Name: "flow-stamp-narrower-than-version", File: "firewall.go", Old: "\tincoming     bool   // If the connection was initiated from the remote side\n\trulesVersion uint16", New: "\tincoming     bool   // If the connection was initiated from the remote side\n\trulesVersion uint8", Rule: "C19.version-width"})
+	}
+}
+
+func (p *Program) sizeofBasic(t types.Type) int64 {
+	return types.SizesFor("gc", "amd64").Sizeof(t)
+}
+
+// ---------------------------------------------------------------------------------------
+// C31 (seed C31b: the pending-deletion mark was cleared only when the tunnel that saw traffic is the primary; a spare tunnel
+// promoted by the tie-break then carries a stale mark, is deleted at the next silent interval without a test packet, and the two
+// ends settle on different tunnels): converging on one tunnel needs the promoted tunnel to survive, so the traffic-clears-mark
+// rule of C30 is a necessary condition of C31 as well.
+func init() {
+	p := registry["C31"]
+	orig, origCan := p.Run, p.Canaries
+	p.Run = func(c *Ctx) {
+		orig(c)
+		c.Rule("C31.promoted-survives", "K1 (shared with C30.traffic-protects): every tunnel that saw inbound traffic, primary or not, has its pending-deletion mark cleared and is never handed a delete decision, so the tunnel the tie-break promotes is not torn down one interval later", 2)
+		copyObligations(c, runC30, "C30.traffic-protects", "C31.promoted-survives", "C30")
+	}
+	p.Canaries = func(c *Ctx) []Canary {
+		return append(origCan(c), Canary{Name: "mark-cleared-for-primary-only", File: "connection_manager.go", Old: "\t\thostinfo.pendingDeletion.Store(false)\n\n\t\tif mainHostInfo {\n", New: "\t\tif mainHostInfo {\n\t\t\thostinfo.pendingDeletion.Store(false)\n", Rule: "C31.promoted-survives"})
+	}
+}
+
+// ---------------------------------------------------------------------------------------
+// C17 (seed C17b: reloadFirewall's "did the certificate's unsafe networks change" test became a one-directional containment
+// test; a re-issued certificate that LOST an unsafe network no longer rebuilds the firewall and Drop keeps accepting packets whose
+// node-side address is in a network the node is no longer certified for): the node-side address table is built from the
+// certificate only in the constructor (C17.routable, C17.writers), so it follows the certificate only if every reload that keeps
+// the installed firewall has compared the two sets symmetrically.
+func c17ReloadRebuilds(c *Ctx) {
+	rule := "C17.reload-rebuilds"
+	c.Rule(rule, "K1: reloadFirewall keeps the installed firewall (returns before building a new one) only across the equal edge of slices.Equal(certificate.UnsafeNetworks(), firewall.unsafeNetworks) or when there is no certificate", 1)
+	fn := c.Func(Ref{"", "Interface", "reloadFirewall"})
+	fUnsafe := c.Field("", "Firewall", "unsafeNetworks")
+	if fn == nil || fUnsafe == nil {
+		if fUnsafe == nil {
+			c.Unknown(rule, "Firewall.unsafeNetworks", "field not found")
+		}
+		return
+	}
+	isCertNets := func(v ssa.Value) bool {
+		call, ok := stripValue(v).(*ssa.Call)
+		if !ok {
+			return false
+		}
+		if m := call.Common().Method; m != nil {
+			return m.Name() == "UnsafeNetworks"
+		}
+		if sc := call.Common().StaticCallee(); sc != nil {
+			return sc.Name() == "UnsafeNetworks"
+		}
+		return false
+	}
+	isFwNets := func(v ssa.Value) bool { return g2LoadOn(v, fUnsafe, func(ssa.Value) bool { return true }) }
+	both := func(call *ssa.Call) bool {
+		a, b := false, false
+		for _, arg := range callArgs(call) {
+			a = a || isCertNets(arg)
+			b = b || isFwNets(arg)
+		}
+		return a && b
+	}
+	equal := gBool("certificate unsafe networks equal the firewall's", true, -1, CallSpec{Refs: []Ref{{"slices", "", "Equal"}, {"reflect", "", "DeepEqual"}}, Args: map[int]func(ssa.Value) bool{}})
+	inner := equal
+	equal = Guard{Name: inner.Name, Match: func(cd Cond, ifi *ssa.If) (bool, bool) {
+		is, pt := inner.Match(cd, ifi)
+		if !is {
+			return false, false
+		}
+		call, _ := callOf(cd.Base)
+		if call == nil || !both(call) {
+			return false, false
+		}
+		return true, pt
+	}}
+	noCert := gValNil("no certificate to compare", func(v ssa.Value) bool {
+		nt, ok := v.Type().(*types.Named)
+		return ok && nt.Obj().Name() == "Certificate"
+	})
+	unchanged := g2Lift(fn, "unsafe networks unchanged", equal, noCert)
+	// the returns that keep the installed firewall: not dominated by the construction of a new one
+	var builds []*ssa.BasicBlock
+	for _, ci := range callsIn(fn, Ref{"", "", "NewFirewallFromConfig"}) {
+		builds = append(builds, ci.Block())
+	}
+	if len(builds) == 0 {
+		c.Unknown(rule, "reloadFirewall:build", "no call of NewFirewallFromConfig found")
+		return
+	}
+	n := 0
+	for _, b := range fn.Blocks {
+		ret, ok := b.Instrs[len(b.Instrs)-1].(*ssa.Return)
+		if !ok {
+			continue
+		}
+		after := false
+		for _, bb := range builds {
+			after = after || bb == b || bb.Dominates(b)
+		}
+		if after {
+			continue
+		}
+		n++
+		cons := fmt.Sprintf("reloadFirewall:keep#%d<-unsafe-networks-equal", n)
+		path, hit, _ := c.g2Bypass(fn, Sink{Instr: ret, Desc: "return keeping the installed firewall"}, unchanged)
+		if !hit {
+			c.OK(rule, cons, "the installed firewall is kept only when the certificate's unsafe networks equal the ones it was built from (or no certificate)")
+			continue
+		}
+		helper := ""
+		eachInstr(fn, func(in ssa.Instruction) {
+			if call, ok := in.(*ssa.Call); ok && both(call) {
+				if ok, _ := inner.Match(normCond(call), nil); !ok {
+					helper = exprString(call)
+				}
+			}
+		})
+		if helper != "" {
+			c.Unknown(rule, cons, "the two sets are compared by "+helper+", which the rule cannot evaluate")
+			continue
+		}
+		c.Bad(rule, cons, c.instrPos(ret), "a reload keeps the installed firewall without having found the certificate's unsafe networks equal to the set the firewall was built from: a certificate that lost (or re-ordered into a subset test) an unsafe network leaves Drop accepting node-side addresses the node is no longer certified for", path...)
+	}
+	if n == 0 {
+		c.Unknown(rule, "reloadFirewall:keep", "no return before the construction of the new firewall found")
+	}
+}
+
+func init() {
+	p := registry["C17"]
+	orig, origCan := p.Run, p.Canaries
+	p.Run = func(c *Ctx) { orig(c); c17ReloadRebuilds(c) }
+	p.Canaries = func(c *Ctx) []Canary {
+		return append(origCan(c), Canary{Name: "reload-ignores-shrunk-unsafe-networks", File: "interface.go", Old: "curCert != nil && !slices.Equal(curCert.UnsafeNetworks(), f.firewall.unsafeNetworks)", New: "curCert != nil && len(curCert.UnsafeNetworks()) > len(f.firewall.unsafeNetworks) && !slices.Equal(curCert.UnsafeNetworks(), f.firewall.unsafeNetworks)", Rule: "C17.reload-rebuilds"})
+	}
+}
